@@ -736,4 +736,138 @@ theorem runCalls_batched (C : CommitMethod) (hC : wfCommit C = true) (hB : wfBat
     rw [h1, h2] at i1 i2
     exact ⟨i1, i2, i3⟩
 
+/-! ### `Causal` from the order in which the manager stores a credential -/
+
+/-- some call of `pre` stores (INSERT OR IGNORE) a record under table/key `d` -/
+def Provides (pre : List Call) (d : Nat × Nat) : Prop :=
+  ∃ c ∈ pre, ∃ rest, c.ops = .exec d.1 .orIgnore :: rest ∧ c.key = d.2
+
+/-- list form of `Causal`: every call finds the record it points to provided by an earlier call -/
+def CausalL (dep : Nat → Nat → Option (Nat × Nat)) : List Call → List Call → Prop
+  | _, [] => True
+  | pre, c :: cs =>
+    (∀ row d, rowOf c = some row → dep row.table row.key = some d → Provides pre d) ∧ CausalL dep (pre ++ [c]) cs
+
+theorem Provides.mono {pre : List Call} {d : Nat × Nat} (x : List Call) (h : Provides pre d) : Provides (pre ++ x) d := by
+  obtain ⟨c, hc, rest, h1, h2⟩ := h
+  exact ⟨c, List.mem_append.mpr (Or.inl hc), rest, h1, h2⟩
+
+theorem hasKey_of_provides (pre : List Call) (hT : TopLevel pre) (d : Nat × Nat) (h : Provides pre d) :
+    hasKey (spec pre).1 d.1 d.2 = true := by
+  obtain ⟨c, hc, rest, hops, hk⟩ := h
+  obtain ⟨A, B, hAB⟩ := List.append_of_mem hc
+  subst hAB
+  have hB : TopLevel B := fun x hx => hT x (by simp [hx])
+  have e : A ++ c :: B = (A ++ [c]) ++ B := by simp
+  rw [e]
+  obtain ⟨extra, hext⟩ := spec_prefix (A ++ [c]) B hB
+  rw [hext, spec_snoc, hasKey_append, ← hk, specStep_key (spec A) c d.1 rest hops]
+  rfl
+
+theorem causal_of_causalL (dep : Nat → Nat → Option (Nat × Nat)) (rest : List Call) :
+    ∀ pre : List Call, TopLevel (pre ++ rest) → CausalL dep pre rest →
+      ∀ i c, rest[i]? = some c → ∀ row, rowOf c = some row → ∀ d, dep row.table row.key = some d →
+        hasKey (spec (pre ++ rest.take i)).1 d.1 d.2 = true := by
+  induction rest with
+  | nil => intro pre _ _ i c hi; simp at hi
+  | cons c0 cs ih =>
+    intro pre hT h i c hi row hrow d hd
+    obtain ⟨h0, hrest⟩ := h
+    cases i with
+    | zero =>
+      simp at hi; subst hi
+      simp only [List.take_zero, List.append_nil]
+      exact hasKey_of_provides pre (fun x hx => hT x (by simp [hx])) d (h0 row d hrow hd)
+    | succ i =>
+      have hT' : TopLevel ((pre ++ [c0]) ++ cs) := by simpa using hT
+      have := ih (pre ++ [c0]) hT' hrest i c (by simpa using hi) row hrow d hd
+      simpa [List.append_assoc] using this
+
+theorem CausalL.append (dep : Nat → Nat → Option (Nat × Nat)) (A : List Call) :
+    ∀ (pre B : List Call), CausalL dep pre A → CausalL dep (pre ++ A) B → CausalL dep pre (A ++ B) := by
+  induction A with
+  | nil => intro pre B _ hB; simpa using hB
+  | cons a as ih =>
+    intro pre B hA hB
+    obtain ⟨h0, h1⟩ := hA
+    refine ⟨h0, ?_⟩
+    apply ih (pre ++ [a]) B h1
+    simpa [List.append_assoc] using hB
+
+/-- `dep` is the pointer structure of credential `c`: token → predecessor, metadata → token, attestation → metadata -/
+structure DepOk (dep : Nat → Nat → Option (Nat × Nat)) (c : Cred) : Prop where
+  tok : dep 0 c.tk = c.prev.map (fun p => (0, p))
+  md : dep 1 c.mdk = some (0, c.tk)
+  att : ∀ a ∈ c.aks, dep 2 a = some (1, c.mdk)
+
+theorem credCalls_eq (c : Cred) :
+    credCalls [0, 1, 2] c =
+      [⟨0, storeOps 0, c.tk, c.tk⟩, ⟨0, storeOps 1, c.mdk, c.mdk⟩] ++ c.aks.map (fun a => ⟨0, storeOps 2, a, a⟩) := by
+  simp [credCalls]
+
+theorem attCalls_causalL (dep : Nat → Nat → Option (Nat × Nat)) (mdk : Nat) (aks : List Nat)
+    (hd : ∀ a ∈ aks, dep 2 a = some (1, mdk)) :
+    ∀ pre : List Call, Provides pre (1, mdk) →
+      CausalL dep pre (aks.map (fun a => (⟨0, storeOps 2, a, a⟩ : Call))) := by
+  induction aks with
+  | nil => intro pre _; trivial
+  | cons a as ih =>
+    intro pre hp
+    refine ⟨?_, ih (fun x hx => hd x (by simp [hx])) _ (hp.mono _)⟩
+    intro row d hrow hdep
+    simp [rowOf, callExec, storeOps] at hrow
+    subst hrow
+    rw [hd a (by simp)] at hdep
+    cases hdep
+    exact hp
+
+theorem credCalls_causalL (dep : Nat → Nat → Option (Nat × Nat)) (c : Cred) (hd : DepOk dep c) (pre : List Call)
+    (hp : ∀ p, c.prev = some p → Provides pre (0, p)) : CausalL dep pre (credCalls [0, 1, 2] c) := by
+  rw [credCalls_eq]
+  refine ⟨?_, ?_, ?_⟩
+  · intro row d hrow hdep
+    simp [rowOf, callExec, storeOps] at hrow
+    subst hrow
+    rw [hd.tok] at hdep
+    cases hpv : c.prev with
+    | none => rw [hpv] at hdep; simp at hdep
+    | some p => rw [hpv] at hdep; simp at hdep; subst hdep; exact hp p hpv
+  · intro row d hrow hdep
+    simp [rowOf, callExec, storeOps] at hrow
+    subst hrow
+    rw [hd.md] at hdep
+    cases hdep
+    exact ⟨⟨0, storeOps 0, c.tk, c.tk⟩, by simp, [.callCommit, .ret], rfl, rfl⟩
+  · apply attCalls_causalL dep c.mdk c.aks hd.att
+    exact ⟨⟨0, storeOps 1, c.mdk, c.mdk⟩, by simp, [.callCommit, .ret], rfl, rfl⟩
+
+theorem credCalls_provides_token (c : Cred) (pre : List Call) : Provides (pre ++ credCalls [0, 1, 2] c) (0, c.tk) := by
+  rw [credCalls_eq]
+  exact ⟨⟨0, storeOps 0, c.tk, c.tk⟩, by simp, [.callCommit, .ret], rfl, rfl⟩
+
+theorem creds_causalL (dep : Nat → Nat → Option (Nat × Nat)) (creds : List Cred) :
+    ∀ (known : List Nat) (pre : List Call), (∀ c ∈ creds, DepOk dep c) → Linked known creds →
+      (∀ k ∈ known, Provides pre (0, k)) → CausalL dep pre (creds.flatMap (credCalls [0, 1, 2])) := by
+  induction creds with
+  | nil => intro _ _ _ _ _; trivial
+  | cons c cs ih =>
+    intro known pre hd hl hk
+    obtain ⟨hl0, hl1⟩ := hl
+    rw [List.flatMap_cons]
+    apply CausalL.append
+    · exact credCalls_causalL dep c (hd c (by simp)) pre (fun p hp => hk p (hl0 p hp))
+    · apply ih (c.tk :: known) _ (fun x hx => hd x (by simp [hx])) hl1
+      intro k hkm
+      rcases List.mem_cons.mp hkm with h | h
+      · subst h; exact credCalls_provides_token c pre
+      · exact (hk k h).mono _
+
+theorem credCalls_topLevel (creds : List Cred) : TopLevel (creds.flatMap (credCalls [0, 1, 2])) := by
+  intro x hx
+  simp only [List.mem_flatMap] at hx
+  obtain ⟨c, _, hxc⟩ := hx
+  rw [credCalls_eq] at hxc
+  simp only [List.mem_append, List.mem_cons, List.mem_map, List.not_mem_nil, or_false] at hxc
+  rcases hxc with (h | h) | ⟨a, _, h⟩ <;> subst h <;> rfl
+
 end Ipv8.C19
